@@ -77,6 +77,28 @@ def Site.name : Site → String
 
 abbrev P := Except PErr
 
+/-- which of the proposed repairs of the registered findings the tree has (fixes/C15-K<n>_*.diff; harness/c15.py reads it off the
+source on every run).  Each turns the raise into what the patch does: the parser gives up / keeps what it has. -/
+structure Fix where
+  k5 : Bool     -- NS/NA: `if buf_len - offset < 20: raise TruncatedException()` (caught by the message class)
+  k6 : Bool     -- `_parse_ndp_options` raises TruncatedException for a bad option area length
+  k7 : Bool     -- `NDOptionBase.unpack_new` raises TruncatedException for a zero / wrong option length
+  k8 : Bool     -- RA: `if buf_len - offset < 12: raise TruncatedException()`; packet-too-big: early return without MTU
+  k9 : Bool     -- ipv6 extension header: `if len(raw) - offset < 2: raise TruncatedException()`
+  k10 : Bool    -- gre: header length guard before the optional fields and inside the routing loop (log, return unparsed)
+  k13 : Bool    -- igmp: `if len(self.extra) < 8: return None` before each group record
+  k14 : Bool    -- igmp group record: a truncated source list ends the list
+  k16 : Bool    -- dhcp: `self.options` exists before the early returns
+  deriving DecidableEq, Repr
+
+def Fix.none : Fix := ⟨false, false, false, false, false, false, false, false, false⟩
+def Fix.all : Fix := ⟨true, true, true, true, true, true, true, true, true⟩
+
+/-- is the raise at `s` repaired? -/
+def Fix.fixed (fx : Fix) : Site → Bool
+  | .k5v | .k5i => fx.k5 | .k6 => fx.k6 | .k7 => fx.k7 | .k8 => fx.k8 | .k9 => fx.k9 | .k10 => fx.k10 | .k13 => fx.k13
+  | .k14 => fx.k14
+
 /-- which version of the code is modelled (see the header) -/
 structure Cfg where
   tlvBound : Bool       -- D14
@@ -86,12 +108,18 @@ structure Cfg where
   tcpOptBound : Bool    -- C15-4
   ext : Bool            -- phase 2: the parsers of mpls, eapol/eap, ipv6 (+extension headers), icmpv6 (+NDP), igmp, gre, vxlan,
                         -- rip, dns are modelled; `false` = they end the chain as `Frame.foreign` (the phase-1 model)
+  fix : Fix             -- phase 3: which repairs of the registered findings K5 … K16 are in the tree
   deriving DecidableEq, Repr
 
-def Cfg.repaired : Cfg := ⟨true, true, true, true, true, true⟩
+/-- /repo HEAD with the given subset of the K-repairs -/
+def Cfg.repairedWith (fx : Fix) : Cfg := ⟨true, true, true, true, true, true, fx⟩
+/-- /repo HEAD (none of the K-repairs) -/
+def Cfg.repaired : Cfg := Cfg.repairedWith Fix.none
+/-- /repo HEAD plus all proposed K-repairs -/
+def Cfg.fixed : Cfg := Cfg.repairedWith Fix.all
 /-- the repaired code with the phase-2 parsers left foreign: the model that `refines_c14` relates to `Packet.parse` -/
-def Cfg.core : Cfg := ⟨true, true, true, true, true, false⟩
-def Cfg.head : Cfg := ⟨false, false, false, false, false, false⟩
+def Cfg.core : Cfg := ⟨true, true, true, true, true, false, Fix.none⟩
+def Cfg.head : Cfg := ⟨false, false, false, false, false, false, Fix.none⟩
 
 /-! ## records that C14 does not have -/
 
@@ -283,6 +311,10 @@ inductive K where
   deriving DecidableEq, Repr
 
 /-! ## partial primitives -/
+
+/-- a place where the code as it stands raises (finding `s`): with the repair in the tree the parser does `alt` instead -/
+def raiseOr {α : Type} (fx : Fix) (s : Site) (alt : P α) : P α :=
+  if fx.fixed s then alt else .error (.known s)
 
 /-- `struct.unpack(fmt, bs)` -/
 def unpackE (L : Layout) (bs : Bytes) : P (List Val) :=
@@ -792,15 +824,17 @@ def dhcpOpts (barr : Bytes) : Nat → Nat → List (Nat × Bytes) → P (List (N
 /-- dhcp.py:176-218.  The overload option never takes effect (`opt_val == 1` compares bytes with an int, dhcp.py:239-242);
 `unpackOptions` wraps every option class in `try/except` and falls back to the raw bytes, so the option *codes and bytes* below
 are what the object holds. -/
-def dhcpParse (raw : Bytes) : P Frame :=
+def dhcpParse (fx : Fix) (raw : Bytes) : P Frame :=
   if raw.length < 240 then pure (.unparsed "dhcp" raw) else
   match unpackE dhcpL (raw.take 28) with
   | .ok [.num op, .num htype, .num hlen, .num hops, .num xid, .num secs, .num flags, .num ci, .num yi, .num si, .num gi] =>
     let magic := sl raw 236 240
     let mk (o : Option (List (Nat × Bytes))) : Dhcp :=
       ⟨op, htype, hlen, hops, xid, secs, flags, ci, yi, si, gi, sl raw 28 44, sl raw 44 108, sl raw 108 236, magic, o⟩
-    if hlen > 16 then pure (.ext (.dhcp (mk none)) raw .nil)
-    else if magic ≠ [0x63, 0x82, 0x53, 0x63] then pure (.ext (.dhcp (mk none)) raw .nil)
+    -- `self.options` does not exist yet on these two returns (K16: pack() then raises AttributeError) unless repaired
+    let early : Option (List (Nat × Bytes)) := if fx.k16 then some [] else none
+    if hlen > 16 then pure (.ext (.dhcp (mk early)) raw .nil)
+    else if magic ≠ [0x63, 0x82, 0x53, 0x63] then pure (.ext (.dhcp (mk early)) raw .nil)
     else match dhcpOpts (raw.drop 240) (raw.length + 1) 0 [] with
       | .ok os => pure (.ext (.dhcp (mk (some os))) raw .nil)
       | .error e => .error e
@@ -815,30 +849,30 @@ abbrev ExtRes := Option (Nat × Nat × Nat × List (Nat × Nat × Bytes))     --
 /-- ipv6.py:357-373 with `NormalExtensionHeader.unpack_new` (ipv6.py:100-118) and `FixedExtensionHeader.unpack_new`
 (ipv6.py:172-183) inlined.  `length` is the payload length clamped to `len(raw)` (the whole buffer, as the code does);
 `len(o)` of a normal header is its length octet, of the fragment header 8. -/
-def extLoop (raw : Bytes) : Nat → Nat → Nat → Nat → List (Nat × Nat × Bytes) → P ExtRes
+def extLoop (fx : Fix) (raw : Bytes) : Nat → Nat → Nat → Nat → List (Nat × Nat × Bytes) → P ExtRes
   | 0, _, _, _, _ => .error .fuel
   | fuel+1, nht, offset, length, acc =>
     if nht = 59 then pure (some (nht, offset, length, acc))
     else if nht = 0 ∨ nht = 43 ∨ nht = 60 then
       if length < 8 then pure none
-      else if offset + 2 > raw.length then .error (.known .k9)              -- struct.unpack_from("!BB", raw, offset)
+      else if offset + 2 > raw.length then raiseOr fx .k9 (pure none)        -- struct.unpack_from("!BB", raw, offset)
       else
         match idx raw offset, idx raw (offset + 1) with
         | .ok nh, .ok lb =>
           let l := lb * 8 + 6
           if length - 2 < l then pure none                                   -- TruncatedException, caught
-          else extLoop raw fuel nh (offset + 2 + l) (length - lb) (acc ++ [(nht, nh, sl raw (offset + 2) (offset + 2 + l))])
+          else extLoop fx raw fuel nh (offset + 2 + l) (length - lb) (acc ++ [(nht, nh, sl raw (offset + 2) (offset + 2 + l))])
         | _, _ => .error .index
     else if nht = 44 then
       if length < offset + 8 then pure none                                  -- `(max_length - offset) < LENGTH`
       else
         match idx raw offset with
-        | .ok nh => extLoop raw fuel nh (offset + 8) (length - 8) (acc ++ [(44, nh, sl raw (offset + 1) (offset + 8))])
+        | .ok nh => extLoop fx raw fuel nh (offset + 8) (length - 8) (acc ++ [(44, nh, sl raw (offset + 1) (offset + 8))])
         | .error e => .error e
     else pure (some (nht, offset, length, acc))
 
 /-- ipv6.py:326-395 -/
-def ipv6Parse (next : K → Bytes → P Frame) (raw : Bytes) : P Frame :=
+def ipv6Parse (fx : Fix) (next : K → Bytes → P Frame) (raw : Bytes) : P Frame :=
   if raw.length < 40 then pure (.unparsed "ipv6" raw) else
   match unpackE ipv6L (raw.take 8) with
   | .ok [.num vtcfl, .num plen, .num nh0, .num hop] =>
@@ -847,7 +881,7 @@ def ipv6Parse (next : K → Bytes → P Frame) (raw : Bytes) : P Frame :=
     let v := vtcfl / 268435456
     if v ≠ 6 then pure (.unparsed "ipv6" raw) else
     let length0 := if plen > raw.length then raw.length else plen
-    match extLoop raw (raw.length + 1) nh0 40 length0 [] with
+    match extLoop fx raw (raw.length + 1) nh0 40 length0 [] with
     | .error e => .error e
     | .ok none => pure (.unparsed "ipv6" raw)
     | .ok (some (nht, offset, length, exts)) =>
@@ -868,15 +902,15 @@ def ipv6Parse (next : K → Bytes → P Frame) (raw : Bytes) : P Frame :=
 /-! ### ICMPv6 and neighbour discovery.  Offsets are relative to the ICMPv6 message (`buf_len = len(raw)`). -/
 
 /-- `NDOptionBase.unpack_new` (icmpv6.py:195-224) at `offset`; `.ok none` = TruncatedException (caught by the message class) -/
-def ndOpt (raw : Bytes) (offset : Nat) : P (Option (Nat × NdOpt)) :=
+def ndOpt (fx : Fix) (raw : Bytes) (offset : Nat) : P (Option (Nat × NdOpt)) :=
   match idx raw offset, idx raw (offset + 1) with
   | .ok t, .ok l =>
-    if l = 0 then .error (.known .k7) else
+    if l = 0 then raiseOr fx .k7 (pure none) else
     let o := offset + 2
     let len := l * 8 - 2
     if raw.length - o < len then pure none else
-    if (t = 1 ∨ t = 2 ∨ t = 5) ∧ len ≠ 6 then .error (.known .k7)
-    else if t = 3 ∧ len ≠ 30 then .error (.known .k7)
+    if (t = 1 ∨ t = 2 ∨ t = 5) ∧ len ≠ 6 then raiseOr fx .k7 (pure none)
+    else if t = 3 ∧ len ≠ 30 then raiseOr fx .k7 (pure none)
     else if t = 1 ∨ t = 2 then pure (some (o + len, .lladdr t (sl raw o (o + 6))))
     else if t = 3 then
       pure (some (o + len, .pfx (beDec (sl raw o (o + 1))) (beDec (sl raw (o + 1) (o + 2))) (beDec (sl raw (o + 2) (o + 6)))
@@ -886,58 +920,60 @@ def ndOpt (raw : Bytes) (offset : Nat) : P (Option (Nat × NdOpt)) :=
   | _, _ => .error .struct
 
 /-- `_parse_ndp_options` (icmpv6.py:122-138): `.ok none` = a TruncatedException left the walker -/
-def ndOpts (raw : Bytes) : Nat → Nat → List NdOpt → P (Option (List NdOpt))
+def ndOpts (fx : Fix) (raw : Bytes) : Nat → Nat → List NdOpt → P (Option (List NdOpt))
   | 0, _, _ => .error .fuel
   | fuel+1, offset, acc =>
     if offset + 2 < raw.length then
-      if (raw.length - offset) % 8 ≠ 0 then .error (.known .k6)
-      else match ndOpt raw offset with
+      if (raw.length - offset) % 8 ≠ 0 then raiseOr fx .k6 (pure none)
+      else match ndOpt fx raw offset with
         | .error e => .error e
         | .ok none => pure none
-        | .ok (some (o', opt)) => ndOpts raw fuel o' (acc ++ [opt])
+        | .ok (some (o', opt)) => ndOpts fx raw fuel o' (acc ++ [opt])
     else pure (some acc)
 
 /-- options of a message whose fixed part ends at `offset`; a TruncatedException leaves the option list empty
 (the object exists, `icmp_base.__init__` already set `parsed = True`) -/
-def ndOptsOf (raw : Bytes) (offset : Nat) : P (List NdOpt) :=
-  match ndOpts raw raw.length offset [] with
+def ndOptsOf (fx : Fix) (raw : Bytes) (offset : Nat) : P (List NdOpt) :=
+  match ndOpts fx raw raw.length offset [] with
   | .error e => .error e
   | .ok none => pure []
   | .ok (some os) => pure os
 
 /-- the message classes of icmpv6.py:485-800 (`cls.unpack_new(raw, offset=4, buf_len=len(raw), prev=self)`) and the old-style
 classes echo / unreach behind `unpack_new_adapter` -/
-def icmp6Body (next : K → Bytes → P Frame) (type : Nat) (raw : Bytes) : P Frame :=
+def icmp6Body (fx : Fix) (next : K → Bytes → P Frame) (type : Nat) (raw : Bytes) : P Frame :=
   let body := raw.drop 4
+  -- what the repaired NS / NA / RA / packet-too-big leave behind for a message shorter than its fixed part: the constructor's defaults
+  let zero16 : Bytes := List.replicate 16 0
   if type = 128 ∨ type = 129 then next .echo6 body
   else if type = 1 then next .unreach6 body
   else if type = 3 then pure (.ext .timeEx6 body (.raw (raw.drop 8)))
   else if type = 2 then
-    if raw.length < 8 then .error (.known .k8)                               -- struct.unpack_from("!I", raw, 4)
+    if raw.length < 8 then raiseOr fx .k8 (pure (.ext (.tooBig6 0) body .nil))   -- struct.unpack_from("!I", raw, 4)
     else pure (.ext (.tooBig6 (beDec (sl raw 4 8))) body (.raw (raw.drop 8)))
   else if type = 133 then
-    match ndOptsOf raw 8 with
+    match ndOptsOf fx raw 8 with
     | .ok os => pure (.ext (.ndRS os) body .nil)
     | .error e => .error e
   else if type = 134 then
-    if raw.length < 16 then .error (.known .k8)                              -- struct.unpack_from("!BBHII", raw, 4)
-    else match ndOpts raw raw.length 16 [] with
+    if raw.length < 16 then raiseOr fx .k8 (pure (.ext (.ndRA 0 0 0 0 0 []) body .nil))   -- struct.unpack_from("!BBHII", raw, 4)
+    else match ndOpts fx raw raw.length 16 [] with
       -- the M/O flags are assigned after the options were read (icmpv6.py:561-563): a TruncatedException leaves them False
       | .ok none => pure (.ext (.ndRA (beDec (sl raw 4 5)) 0 (beDec (sl raw 6 8)) (beDec (sl raw 8 12)) (beDec (sl raw 12 16)) []) body .nil)
       | .ok (some os) => pure (.ext (.ndRA (beDec (sl raw 4 5)) (beDec (sl raw 5 6)) (beDec (sl raw 6 8)) (beDec (sl raw 8 12))
                                           (beDec (sl raw 12 16)) os) body .nil)
       | .error e => .error e
   else if type = 135 then
-    if (sl raw 8 24).length ≠ 16 then .error (.known .k5v)                   -- IPAddr6(raw=raw[8:24])
-    else match ndOptsOf raw 24 with
+    if (sl raw 8 24).length ≠ 16 then raiseOr fx .k5v (pure (.ext (.ndNS zero16 []) body .nil))   -- IPAddr6(raw=raw[8:24])
+    else match ndOptsOf fx raw 24 with
       | .ok os => pure (.ext (.ndNS (sl raw 8 24) os) body .nil)
       | .error e => .error e
   else if type = 136 then
     match idx raw 4 with
-    | .error _ => .error (.known .k5i)                                       -- flags = raw[offset]
+    | .error _ => raiseOr fx .k5i (pure (.ext (.ndNA 0 zero16 []) body .nil))   -- flags = raw[offset]
     | .ok flags =>
-      if (sl raw 8 24).length ≠ 16 then .error (.known .k5v)
-      else match ndOptsOf raw 24 with
+      if (sl raw 8 24).length ≠ 16 then raiseOr fx .k5v (pure (.ext (.ndNA 0 zero16 []) body .nil))
+      else match ndOptsOf fx raw 24 with
         | .ok os => pure (.ext (.ndNA flags (sl raw 8 24) os) body .nil)
         | .error e => .error e
   else pure (.raw body)
@@ -947,12 +983,12 @@ def icmp6Csum (src dst raw : Bytes) : Nat :=
   checksum ((src ++ dst) ++ (beEnc 4 raw.length ++ [0, 0, 0, 58]) ++ raw) 0 (some 21)
 
 /-- icmpv6.py:962-1005 -/
-def icmp6Parse (src dst : Bytes) (next : K → Bytes → P Frame) (raw : Bytes) : P Frame :=
+def icmp6Parse (fx : Fix) (src dst : Bytes) (next : K → Bytes → P Frame) (raw : Bytes) : P Frame :=
   if raw.length < 4 then pure (.unparsed "icmpv6" raw) else
   match unpackE icmpL (raw.take 4) with
   | .ok [.num type, .num code, .num csum] =>
     if csum ≠ icmp6Csum src dst raw then pure (.unparsed "icmpv6" raw)
-    else match icmp6Body next type raw with
+    else match icmp6Body fx next type raw with
       | .ok n => pure (.ext (.icmp6 ⟨type, code, csum⟩) raw n)
       | .error e => .error e
   | .ok _ => .error .struct
@@ -1029,60 +1065,71 @@ def greTail (next : K → Bytes → P Frame) (raw : Bytes) (h : Gre) (o : Nat) :
   | .ok n => pure (.ext (.gre h) raw n)
   | .error e => .error e
 
-/-- gre.py:102-149 (`verify_csum` is False) -/
-def greParse (next : K → Bytes → P Frame) (raw : Bytes) : P Frame :=
+/-- gre.py:111-146: the optional fields and the source route behind the first four bytes: (header, offset of the payload) -/
+def greHdr (raw : Bytes) (flags type : Nat) : P (Gre × Nat) :=
+  let csumP := decide ((flags / 32768) % 2 = 1)
+  let routeP := decide ((flags / 16384) % 2 = 1)
+  let keyP := decide ((flags / 8192) % 2 = 1)
+  let seqP := decide ((flags / 4096) % 2 = 1)
+  match greCsum raw (csumP || routeP) with
+  | .error e => .error e
+  | .ok (o1, csum, ro) =>
+    match greOpt raw keyP o1 with
+    | .error e => .error e
+    | .ok (o2, key) =>
+      match greOpt raw seqP o2 with
+      | .error e => .error e
+      | .ok (o3, seq) =>
+        match greRoute raw routeP o3 with
+        | .error e => .error e
+        | .ok (o, routing) =>
+          pure (⟨type, flags % 8, decide ((flags / 2048) % 2 = 1), (flags / 256) % 8, csum, ro, key, seq, routing⟩, o)
+
+/-- gre.py:102-149 (`verify_csum` is False).  With the K10 repair the two places that read a field the buffer does not hold
+(the length check before the optional fields, the one inside the routing loop) log and return: the object stays unparsed. -/
+def greParse (fx : Fix) (next : K → Bytes → P Frame) (raw : Bytes) : P Frame :=
   if raw.length < 4 then pure (.unparsed "gre" raw) else
   match unpackE [.uint 2, .uint 2] (raw.take 4) with
   | .ok [.num flags, .num type] =>
-    let csumP := decide ((flags / 32768) % 2 = 1)
-    let routeP := decide ((flags / 16384) % 2 = 1)
-    let keyP := decide ((flags / 8192) % 2 = 1)
-    let seqP := decide ((flags / 4096) % 2 = 1)
-    match greCsum raw (csumP || routeP) with
+    match greHdr raw flags type with
+    | .ok (h, o) => greTail next raw h o
+    | .error (.known .k10) => raiseOr fx .k10 (pure (.unparsed "gre" raw))
     | .error e => .error e
-    | .ok (o1, csum, ro) =>
-      match greOpt raw keyP o1 with
-      | .error e => .error e
-      | .ok (o2, key) =>
-        match greOpt raw seqP o2 with
-        | .error e => .error e
-        | .ok (o3, seq) =>
-          match greRoute raw routeP o3 with
-          | .error e => .error e
-          | .ok (o, routing) =>
-            greTail next raw ⟨type, flags % 8, decide ((flags / 2048) % 2 = 1), (flags / 256) % 8, csum, ro, key, seq, routing⟩ o
   | .ok _ => .error .struct
   | .error e => .error e
 
 /-! ### IGMP -/
 
 /-- the `n` source addresses of a group record: `IPAddr(raw[offset:offset+4])` (igmp.py:186-188) -/
-def igmpSrcs (b : Bytes) : Nat → Nat → P (List Nat)
+def igmpSrcs (fx : Fix) (b : Bytes) : Nat → Nat → P (List Nat)
   | 0, _ => pure []
   | n+1, o =>
-    if (sl b o (o + 4)).length ≠ 4 then .error (.known .k14) else
-    match igmpSrcs b n (o + 4) with
+    if (sl b o (o + 4)).length ≠ 4 then raiseOr fx .k14 (pure []) else         -- repaired: `break`, the list ends here
+    match igmpSrcs fx b n (o + 4) with
     | .ok r => pure (beDec (sl b o (o + 4)) :: r)
     | .error e => .error e
 
 /-- igmp.py:181-193 `GroupRecord.unpack_new(raw)`: (bytes consumed, record) -/
-def groupRec (b : Bytes) : P (Nat × GroupRec) :=
+def groupRec (fx : Fix) (b : Bytes) : P (Nat × GroupRec) :=
   if b.length < 8 then .error (.known .k13) else                              -- struct.unpack_from("!BBH4s", raw, 0)
   let n := beDec (sl b 2 4)
   let auxlen := beDec (sl b 1 2) * 4
-  match igmpSrcs b n 8 with
+  match igmpSrcs fx b n 8 with
   | .error e => .error e
-  | .ok srcs => pure (8 + 4 * n + auxlen, ⟨beDec (sl b 0 1), beDec (sl b 4 8), srcs, sl b (8 + 4 * n) (8 + 4 * n + auxlen)⟩)
+  | .ok srcs =>
+    -- the auxiliary data start behind the addresses that were read (all `n` of them unless the K14 repair cut the list short)
+    let e := 8 + 4 * srcs.length
+    pure (e + auxlen, ⟨beDec (sl b 0 1), beDec (sl b 4 8), srcs, sl b e (e + auxlen)⟩)
 
-def groupRecs : Nat → Bytes → List GroupRec → P (List GroupRec × Bytes)
+def groupRecs (fx : Fix) : Nat → Bytes → List GroupRec → P (List GroupRec × Bytes)
   | 0, b, acc => pure (acc, b)
   | n+1, b, acc =>
-    match groupRec b with
+    match groupRec fx b with
     | .error e => .error e
-    | .ok (off, g) => groupRecs n (b.drop off) (acc ++ [g])
+    | .ok (off, g) => groupRecs fx n (b.drop off) (acc ++ [g])
 
 /-- igmp.py:109-150; a checksum mismatch or an unknown type leaves the object unparsed -/
-def igmpParse (raw : Bytes) : P Frame :=
+def igmpParse (fx : Fix) (raw : Bytes) : P Frame :=
   if raw.length < 8 then pure (.unparsed "igmp" raw) else
   match idx raw 0 with
   | .error e => .error e
@@ -1090,7 +1137,8 @@ def igmpParse (raw : Bytes) : P Frame :=
     if vt = 0x22 then
       match unpackE [.uint 1, .uint 1, .uint 2, .uint 2, .uint 2] (raw.take 8) with
       | .ok [.num _, .num _, .num csum, .num _, .num num] =>
-        match groupRecs num (raw.drop 8) [] with
+        match groupRecs fx num (raw.drop 8) [] with
+        | .error (.known .k13) => raiseOr fx .k13 (pure (.unparsed "igmp" raw))   -- repaired: `return None` before the record
         | .error e => .error e
         | .ok (gs, extra) =>
           if checksum ([UInt8.ofNat vt, 0, 0, 0, 0, 0] ++ (sl raw 6 8 ++ raw.drop 8)) 0 none ≠ csum then pure (.unparsed "igmp" raw)
@@ -1131,13 +1179,13 @@ def parseD (cfg : Cfg) : Nat → K → Bytes → P Frame
     | .vxlan => vxlanParse (parseD cfg d) raw
     | .rip => ripParse raw
     | .dns => dnsParse raw
-    | .ipv6 => ipv6Parse (parseD cfg d) raw
-    | .icmp6 s t => icmp6Parse s t (parseD cfg d) raw
+    | .ipv6 => ipv6Parse cfg.fix (parseD cfg d) raw
+    | .icmp6 s t => icmp6Parse cfg.fix s t (parseD cfg d) raw
     | .echo6 => echo6Parse raw
     | .unreach6 => unreach6Parse (parseD cfg d) raw
-    | .gre => greParse (parseD cfg d) raw
-    | .igmp => igmpParse raw
-    | .dhcp => dhcpParse raw
+    | .gre => greParse cfg.fix (parseD cfg d) raw
+    | .igmp => igmpParse cfg.fix raw
+    | .dhcp => dhcpParse cfg.fix raw
 
 /-- `ethernet(raw=bs)` with `d` nested activations available (`PacketIn.parsed` is exactly this call,
 openflow/__init__.py:182-185) -/
